@@ -201,7 +201,7 @@ func (P *Program) checkProperty(prop, tier string, timeoutS int, loadSecs float6
 					nViol++
 					exit = 1
 					path := filepath.Join(replayDir, safeName(ob.Name)+".txt")
-					_ = writeFile(path, "obligation: "+ob.Name+"\nthe preconditions of "+r.Key+" are unsatisfiable (vacuous contract)\nno-failing-input-found\n")
+					_ = writeFile(path, "obligation: "+ob.Name+"\nvacuity guard failed for "+r.Key+": "+ob.Desc+"\n"+ob.Output+"\nno-failing-input-found\n")
 					violLines = append(violLines, fmt.Sprintf("VIOLATION property=%s replay=%s obligation=%s vacuous-precondition no-failing-input-found", prop, path, ob.Name))
 				}
 				continue
